@@ -146,6 +146,11 @@ def check_geometry(rec: dict, rng: random.Random, report, *, corrupt: str | None
     except Exception as ex:
         report("Construct", {"raised": type(ex).__name__, "msg": str(ex)[:200], "cfg": cfg})
         return 1
+    f64 = corrupt is None and index % 5 == 3
+    if f64:
+        # every fifth geometry on a connection moved to double precision (Module.double()): the same linear map
+        conn = conn.double()
+        cfg["float64"] = True
     Wa = W.numpy().astype(np.float64)
     if kind == "lateral":
         # the oracle uses the ASSIGNED matrix: the relation itself leaves the diagonal out
@@ -189,10 +194,14 @@ def check_geometry(rec: dict, rng: random.Random, report, *, corrupt: str | None
 
     for trial in range(steps):
         spikes = (torch.rand(B, *rec["inshape"], generator=_tgen(rng)) < (0.5 if trial else 1.1)).float()
+        if f64:
+            spikes = spikes.double()
         inputs = [spikes]
         inj = 0.0
         if plus:
             injt = dyadic(rng, [B] + rec["inshape"], -8, 8, 4.0)
+            if f64:
+                injt = injt.double()
             inputs.append(injt)
             inj = injt.numpy().astype(np.float64)
         cur = model.step(spikes.numpy().astype(np.float64), inj)
